@@ -130,7 +130,16 @@ def sweeps(tier):
                 groups = [k] * (n // k) + ([n % k] if n % k else [])
                 cases.append({'frontend': fe, 'framing': framing, 'single': False, 'hosted': [1, 2], 'ignore_missing_slaves': False,
                               'broadcast_enable': False, 'requests': reqs, 'groups': groups})
-    return [('long-lived-connection-%d-requests' % n, cases, False)]
+    out = [('long-lived-connection-%d-requests' % n, cases, False)]
+    # more responses than a 16-bit counter can count, on one connection of every stream front-end
+    big = []
+    pdu = specpdu.encode('req:3', {'address': 1, 'quantity': 1}).hex()
+    for fe in frontends.STREAM:
+        reqs = [{'uid': 1, 'tid': i & 0xFFFF, 'pdu': pdu} for i in range(66000)]
+        big.append({'frontend': fe, 'framing': 'rtu' if fe == 'sync_serial' else 'tcp', 'single': False, 'hosted': [1, 2], 'ignore_missing_slaves': False,
+                    'broadcast_enable': False, 'requests': reqs, 'groups': [500] * 132})
+    out.append(('66000-requests-on-one-connection', big, False))
+    return out
 
 
 def make_context(single, hosted, layout=SMALL_LAYOUT, slave_class=None):
